@@ -1,10 +1,15 @@
 #!/usr/bin/env python3
-"""run_seeds.py [seed ...]: apply each kept seeded change to /repo's working tree, run the checks of
-all claimed properties (or the one named in meta.json first), record which checks report a NEW
-violation, and restore the tree.  Writes /verif/seeded/RESULTS.json."""
-import json, os, subprocess, sys
+"""run_seeds.py [-j N] [seed ...]: apply each kept seeded change to a scratch worktree of /repo's HEAD (N worktrees under /tmp, removed at
+the end; /repo itself is not touched), run the checks of all claimed properties against it (the seed's own property first: it builds the
+facts of the patched tree), record which checks report a NEW violation.  Writes /verif/seeded/RESULTS.json."""
+import json, os, subprocess, sys, threading, queue
+from concurrent.futures import ThreadPoolExecutor
 V = '/verif'
-seeds = sys.argv[1:] or sorted(d for d in os.listdir(V + '/seeded') if os.path.isdir(V + '/seeded/' + d))
+args = sys.argv[1:]
+J = 4
+if args[:1] == ['-j']:
+    J = int(args[1]); args = args[2:]
+seeds = args or sorted(d for d in os.listdir(V + '/seeded') if os.path.isdir(V + '/seeded/' + d))
 man = json.load(open(V + '/MANIFEST.json'))
 claimed = [c['property_id'] for c in man['checks']]
 res = {}
@@ -12,44 +17,67 @@ try:
     res = json.load(open(V + '/seeded/RESULTS.json'))
 except Exception:
     pass
-assert subprocess.run(['git', '-C', '/repo', 'status', '--porcelain', '--untracked-files=no'], capture_output=True, text=True).stdout.strip() == '', '/repo not clean'
+lock = threading.Lock()
+q = queue.Queue()
 for s in seeds:
-    d = V + '/seeded/' + s
-    meta = json.load(open(d + '/meta.json'))
-    r = subprocess.run(['git', '-C', '/repo', 'apply', '--3way', d + '/patch.diff'], capture_output=True, text=True)
-    if r.returncode != 0:
-        r = subprocess.run(['git', '-C', '/repo', 'apply', d + '/patch.diff'], capture_output=True, text=True)
-    if r.returncode != 0:
-        res[s] = {'property': meta['property'], 'applies': False, 'error': r.stderr[-300:]}
-        subprocess.run(['git', '-C', '/repo', 'reset', '-q', '--hard', 'HEAD'])
-        subprocess.run(['git', '-C', '/repo', 'reset', '-q'])
-        print(s, 'PATCH DOES NOT APPLY')
-        continue
-    caught = {}
+    q.put(s)
+
+
+def sh(*a, **k):
+    return subprocess.run(list(a), capture_output=True, text=True, **k)
+
+
+def worker(i):
+    wt = '/tmp/seedwt-%d' % i
+    sh('git', '-C', '/repo', 'worktree', 'remove', '--force', wt)
+    r = sh('git', '-C', '/repo', 'worktree', 'add', '--detach', wt, 'HEAD')
+    assert r.returncode == 0, r.stderr
+    env = dict(os.environ, TSRUN_REPO=wt, TMPDIR='/tmp/seedwt-tmp-%d' % i)
+    os.makedirs(env['TMPDIR'], exist_ok=True)
 
     def one(pid):
-        out = subprocess.run([V + '/check', pid, 'quick'], capture_output=True, text=True, cwd=V)
+        out = subprocess.run([V + '/check', pid, 'quick'], capture_output=True, text=True, cwd=V, env=env)
         if out.returncode == 2:
             return pid, ['BUILD-FAILED']
         return pid, [l.split('key=')[1].split(' at ')[0] for l in out.stdout.splitlines() if l.strip().startswith('rule=') and 'key=' in l]
-    # the seed's own property first (it builds the facts of the patched tree), the others in parallel
-    order = [meta['property']] if meta['property'] in claimed else []
-    pid0, keys0 = one(order[0]) if order else (None, [])
-    if keys0:
-        caught[pid0] = keys0
-    from concurrent.futures import ThreadPoolExecutor
-    with ThreadPoolExecutor(max_workers=10) as ex:
-        for pid, keys in ex.map(one, [p for p in claimed if p not in order]):
-            if keys:
-                caught[pid] = keys
-    subprocess.run(['git', '-C', '/repo', 'reset', '-q', '--hard', 'HEAD'])
-    subprocess.run(['git', '-C', '/repo', 'reset', '-q'])
-    res[s] = {'property': meta['property'], 'applies': True, 'caught_by': caught,
-              'caught_by_own_property': meta['property'] in caught}
-    print(s, 'caught by', caught if caught else 'NOTHING')
-    json.dump(res, open(V + '/seeded/RESULTS.json', 'w'), indent=1)
-# restore evidence files to the unchanged tree
-from concurrent.futures import ThreadPoolExecutor
-with ThreadPoolExecutor(max_workers=10) as ex:
-    list(ex.map(lambda pid: subprocess.run([V + '/check', pid, 'quick'], capture_output=True, text=True, cwd=V), claimed))
+    try:
+        while True:
+            try:
+                s = q.get_nowait()
+            except queue.Empty:
+                break
+            d = V + '/seeded/' + s
+            meta = json.load(open(d + '/meta.json'))
+            r = sh('git', '-C', wt, 'apply', d + '/patch.diff')
+            if r.returncode != 0:
+                with lock:
+                    res[s] = {'property': meta['property'], 'applies': False, 'error': r.stderr[-300:]}
+                    print(s, 'PATCH DOES NOT APPLY', flush=True)
+                sh('git', '-C', wt, 'checkout', '-q', '--', '.')
+                continue
+            caught = {}
+            order = [meta['property']] if meta['property'] in claimed else []
+            pid0, keys0 = one(order[0]) if order else (None, [])
+            if keys0:
+                caught[pid0] = keys0
+            with ThreadPoolExecutor(max_workers=5) as ex:
+                for pid, keys in ex.map(one, [p for p in claimed if p not in order]):
+                    if keys:
+                        caught[pid] = keys
+            sh('git', '-C', wt, 'checkout', '-q', '--', '.')
+            sh('git', '-C', wt, 'clean', '-fdq')
+            with lock:
+                res[s] = {'property': meta['property'], 'applies': True, 'caught_by': caught, 'caught_by_own_property': meta['property'] in caught}
+                print(s, 'caught by', caught if caught else 'NOTHING', flush=True)
+                json.dump(res, open(V + '/seeded/RESULTS.json', 'w'), indent=1)
+    finally:
+        sh('git', '-C', '/repo', 'worktree', 'remove', '--force', wt)
+        sh('rm', '-rf', env['TMPDIR'])
+
+
+ts = [threading.Thread(target=worker, args=(i,)) for i in range(min(J, len(seeds)))]
+for t in ts:
+    t.start()
+for t in ts:
+    t.join()
 json.dump(res, open(V + '/seeded/RESULTS.json', 'w'), indent=1)
